@@ -86,6 +86,12 @@ def run(c):
     pred = rsatoolbox.rdm.RDMs(pm, dissimilarity_measure='tagged', rdm_descriptors={'rid': [9], 'rname': ['ra']},
                                pattern_descriptors={k: v for k, v in r.pattern_descriptors.items()})
     pred_init = state_of(c, pred)
+    # array-valued descriptors with more than one dimension (a position per condition, a (site, run) pair per RDM) travel with
+    # their items (seeded change C09-m8); attached after the states above were taken, checked directly below
+    rids = [int(x) for x in r.rdm_descriptors['rid']]
+    r2 = r.copy()
+    r2.pattern_descriptors['pos2d'] = np.array([[10 * p + 1, 10 * p + 2] for p in pids])
+    r2.rdm_descriptors['site2d'] = np.array([[10 * q + 1, 10 * q + 2] for q in rids])
     rd, pdn = RCOLS[c['rcol']], PCOLS[c['pcol']]
     w = Draws(script=c['script'], seed=c['seed'] % (2 ** 31))
     orig = np.random.randint
@@ -103,7 +109,34 @@ def run(c):
         np.random.randint = orig
     if state_of(c, r) != init:
         return {'error': 'INPUT_MUTATED'}
-    out = dict(init=init, pred_init=pred_init, draws=w.log, state=state_of(c, sample),
+    d2 = None
+    try:
+        # the same draws on a copy that carries the two-dimensional descriptors
+        np.random.randint = Draws(script=[d['draws'] for d in w.log])
+        try:
+            if c['kind'] == 'rdm':
+                sample2 = bootstrap_sample_rdm(r2, rdm_descriptor=rd)[0]
+            elif c['kind'] == 'pattern':
+                sample2 = bootstrap_sample_pattern(r2, pattern_descriptor=pdn)[0]
+            else:
+                sample2 = bootstrap_sample(r2, rdm_descriptor=rd, pattern_descriptor=pdn)[0]
+        finally:
+            np.random.randint = orig
+        sample_main, sample = sample, sample2
+        got_p = np.asarray(sample.pattern_descriptors['pos2d']).reshape(sample.n_cond, -1).tolist()
+        want_p = [[10 * int(p) + 1, 10 * int(p) + 2] for p in sample.pattern_descriptors['pid']]
+        got_r = np.asarray(sample.rdm_descriptors['site2d']).reshape(sample.n_rdm, -1).tolist()
+        want_r = [[10 * int(q) + 1, 10 * int(q) + 2] for q in sample.rdm_descriptors['rid']]
+        if got_p != want_p:
+            d2 = f'two-dimensional pattern descriptor of the sample {got_p} is not that of its conditions {want_p}'
+        elif got_r != want_r:
+            d2 = f'two-dimensional rdm descriptor of the sample {got_r} is not that of its RDMs {want_r}'
+    except Exception as e:
+        d2 = f'two-dimensional descriptors are not carried into the sample: {type(e).__name__}: {e}'
+    finally:
+        if 'sample_main' in dir():
+            sample = sample_main
+    out = dict(desc2d=d2, init=init, pred_init=pred_init, draws=w.log, state=state_of(c, sample),
                ridx=[c10.enc_rval(c['rcol'], x) for x in ridx],
                pidx=[c10.enc_pval(c, c['pcol'], x) if c['pcol'] < 3 else int(x) for x in pidx],
                idx_types=[type(ridx).__name__, type(pidx).__name__])
@@ -136,6 +169,8 @@ def oracle(c, o):
     """independent check of the property on the implementation's sample"""
     if 'error' in o:
         return f"implementation raised {o['error']}: {o.get('msg')}"
+    if o.get('desc2d'):
+        return o['desc2d']
     init, st = o['init'], o['state']
     if o['idx_types'] != ['ndarray', 'ndarray'] and not (c['kind'] == 'rdm' and o['idx_types'][0] == 'ndarray') \
             and not (c['kind'] == 'pattern' and o['idx_types'][1] == 'ndarray'):
